@@ -246,6 +246,78 @@ def spellings(rep: Report, prog: Program, tables: Tables) -> None:
         rep.check("R13.5", f"callback:{cb}", op in txt and arg in txt, f"the `{cb}` callback no longer combines its children with `{op}`", fi.where())
 
 
+def term_prefix_guard(rep: Report, prog: Program) -> None:
+    """R13.7: a prefix the formatter attaches to a rendered term is either a factor's own prefix or
+    the result of Prefix.root(..) - the only operation that rejects a prefix whose exponent is not
+    integral (Kibi*Milli is 2**22.96...).  A product of prefixes that reaches a term unguarded is
+    rendered as a power the grammar cannot read back."""
+    from ..cfg import CFG
+    fi = prog.func("formatting._unit_to_magnitude_and_terms")
+    cfg = CFG(fi.node)
+    n = 0
+    for st in ast.walk(fi.node):
+        if not (isinstance(st, ast.Assign) and isinstance(st.value, ast.Tuple) and len(st.value.elts) == 3):
+            continue
+        p0 = st.value.elts[0]
+        nid = cfg.node_of(st)
+        if nid is None:
+            continue
+        n += 1
+        bad: List[str] = []
+
+        def guarded(e: ast.AST, at: int, depth: int = 0) -> bool:
+            if isinstance(e, ast.Call) and isinstance(e.func, ast.Attribute) and e.func.attr == "root":
+                return True
+            if isinstance(e, ast.Attribute) and e.attr == "prefix" and isinstance(e.value, ast.Name) and e.value.id != fi.params()[0]:
+                return True   # a factor's own prefix
+            if isinstance(e, ast.Name) and depth < 6:
+                defs = cfg.reaching_defs(at, e.id)
+                if not defs:
+                    return False
+                for d in defs:
+                    if d is None:
+                        return False
+                    if isinstance(d, ast.Assign) and len(d.targets) == 1 and isinstance(d.targets[0], ast.Name):
+                        dn = cfg.node_of(d)
+                        if dn is None or not guarded(d.value, dn, depth + 1):
+                            bad.append(ast.unparse(d)[:60])
+                            return False
+                    elif isinstance(d, ast.Assign) and isinstance(d.targets[0], ast.Tuple):
+                        # prefix, symbol, exponent = first   (first comes from the factors' own prefixes)
+                        src = d.value
+                        dn = cfg.node_of(d)
+                        if not (isinstance(src, ast.Name) and dn is not None and _own_prefix_terms(cfg, dn, src.id)):
+                            bad.append(ast.unparse(d)[:60])
+                            return False
+                    else:
+                        return False
+                return True
+            return False
+        ok = guarded(p0, nid)
+        rep.check("R13.7", f"{fi.qual}:{ast.unparse(st)[:40]}", ok,
+                  f"`{ast.unparse(st)[:60]}` puts a prefix into a rendered term that comes from `{bad[0] if bad else ast.unparse(p0)}` without "
+                  "passing Prefix.root(..): a combined prefix with a non-integral exponent (Kibi*Milli) is written as a power the "
+                  "grammar cannot parse back", fi.where(st))
+    if n == 0:
+        raise AnalysisError("formatting._unit_to_magnitude_and_terms: no term tuple is built (R13.7 anchor moved)")
+
+
+def _own_prefix_terms(cfg, at: int, name: str) -> bool:
+    """`name` is (an element of) the list of (factor.prefix, factor.symbol, exponent) terms."""
+    for d in cfg.reaching_defs(at, name):
+        if d is None or not isinstance(d, ast.Assign):
+            return False
+        v = d.value
+        comps = [x for x in ast.walk(v) if isinstance(x, (ast.ListComp, ast.GeneratorExp))]
+        if not comps:
+            return False
+        for c in comps:
+            elt = c.elt
+            if not (isinstance(elt, ast.Tuple) and elt.elts and isinstance(elt.elts[0], ast.Attribute) and elt.elts[0].attr == "prefix"):
+                return False
+    return True
+
+
 def run(rep: Report) -> None:
     prog = Program()
     resolver = Resolver(prog)
@@ -258,6 +330,7 @@ def run(rep: Report) -> None:
              "leading only), DIGITS inverts it, the join separator is a _MULTIPLY alternative", floor=14)
     rep.rule("R13.5", "spellings: alternatives of one rule differ only in filtered tokens, or their callbacks produce the same "
              "type; unit divides, unit_sequence multiplies, term raises", floor=5)
+    rep.rule("R13.7", "a prefix attached to a rendered term is a factor's own prefix or has passed Prefix.root (integrality guard)", floor=1)
     rep.rule("R13.6", "no memoised function on the resolution path reads the registries (a stale answer would survive a later registration)", floor=1)
     thorough = rep.tier == "thorough"
     sh = extract_shipped()
@@ -269,6 +342,7 @@ def run(rep: Report) -> None:
     formatter_language(rep, prog, resolver, ev, tables, thorough)
     tables_rule(rep, prog, resolver, tables)
     spellings(rep, prog, tables)
+    term_prefix_guard(rep, prog)
     # R13.6
     from .c08 import NAMING, memo_functions
     n6 = 0
